@@ -254,7 +254,7 @@ def explore(setup, bound=2, max_executions=50_000, thin=None):
 def _explore(setup, bound, max_executions, thin=None):
     """setup() -> (bodies, judge): fresh state, thread bodies, judge(results, deadlock) -> description or None.
     -> dict(executions, max_points, violation=(schedule, description) or None, complete)"""
-    roots = (loader.REPO,)
+    roots = (loader.REPO, loader.scratch_root())  # library and generator code, and code the generator produced
     stack = [[]]
     n = maxp = 0
     thinned = False
@@ -295,7 +295,7 @@ def replay_schedule(setup, schedule):
 
 def _replay_schedule(setup, schedule):
     bodies, judge = setup()
-    ex = Execution(bodies, schedule, (loader.REPO,))
+    ex = Execution(bodies, schedule, (loader.REPO, loader.scratch_root()))
     ex.run()
     return judge(ex.results, str(ex.error) if isinstance(ex.error, Deadlock) else None)
 
